@@ -104,7 +104,8 @@ class EvolvableMLP(EvolvableModule):
         self.output_vanish = output_vanish
         self.output_layernorm = output_layernorm
         self.init_layers = init_layers
-        self.hidden_size = hidden_size
+        # NOTE: Own copy, the list is modified in place by the mutation methods
+        self.hidden_size = list(hidden_size)
         self.noisy = noisy
         self.noise_std = noise_std
 
